@@ -82,7 +82,7 @@ func genC04(rt *rapid.T) core.Scenario {
 			Once:   i == 0 || rapid.IntRange(0, 2).Draw(rt, "once") > 0,
 			Async:  rapid.Bool().Draw(rt, "async"),
 			Seq:    rapid.IntRange(0, 4).Draw(rt, "seq") == 4,
-			Filter: rapid.SampledFrom([]int{0, 0, 1, 2, 3, 4}).Draw(rt, "filter"),
+			Filter: rapid.SampledFrom([]int{0, 0, 1, 2, 3, 4, 11, 12, 14}).Draw(rt, "filter"),
 		}
 		sc.Regs = append(sc.Regs, C04Reg{Type: ti, Fn: fn, Opts: o})
 	}
@@ -398,12 +398,12 @@ func (sc *C04Scenario) Execute(t *testing.T) *core.Outcome {
 		// ---- probe phase: every once handler that has not fired must still fire for an eligible event
 		nextID := 100000
 		for k, r := range sc.Regs {
-			if !r.Opts.Once || fired[k] || r.Opts.Filter == 3 {
+			if !r.Opts.Once || fired[k] || r.Opts.Filter%10 == 3 {
 				continue
 			}
 			nextID += 6
 			id := nextID // multiple of 6: accepted by filters 0,1,4
-			if r.Opts.Filter == 2 {
+			if r.Opts.Filter%10 == 2 {
 				id++
 			}
 			before := map[int]int{}
